@@ -13,7 +13,9 @@ All files live in temporary directories under /tmp which are removed.
 
 import copy as _copy
 import itertools
+import json
 import os
+import re
 import shutil
 import tempfile
 import time
@@ -510,6 +512,14 @@ def part_saveload(run, rng, rs, lines, meta):
 # part E: which source wins (phonopy.load vs the decision model)
 # --------------------------------------------------------------------------
 
+def present_tokens(P):
+    return " ".join([str(int(P["argNac"])), str(int(P["argNacHasFactor"])), str(int(P["argBornFile"])), str(int(P["argBornFileHasFactor"])),
+                     str(int(P["argForceSets"])), str(int(P["argFcFile"])), CALC[P["argCalculator"]], str(int(P["argFactor"])),
+                     str(int(P["isNac"])), str(int(P["produceFc"])), str(int(P["yamlNac"])), str(int(P["yamlNacHasFactor"])),
+                     P["yamlDataset"], str(int(P["yamlFc"])), CALC[P["yamlCalculator"]], str(int(P["fileForceSets"])),
+                     str(int(P["fileForceConstants"])), str(int(P["fileHdf5"])), str(int(P["fileBorn"])), str(int(P["fileBornHasFactor"]))])
+
+
 def part_priority(run, rng, rs, lines, meta):
     import phonopy
     from phonopy import file_IO
@@ -533,20 +543,36 @@ def part_priority(run, rng, rs, lines, meta):
         if not P["yamlNac"]:
             P["yamlNacHasFactor"] = False
         hdf5_arg = rng.random() < 0.5
+        # options and layouts that decide what is recomputed, not which source wins
+        O = dict(isCompactFc=rng.random() < 0.5, symmetrizeFc=rng.random() < 0.6, fcCalculator=rng.choice([None, None, "traditional"]),
+                 yamlFcCompact=rng.random() < 0.4, argFcCompact=rng.random() < 0.4, fileFcCompact=rng.random() < 0.4,
+                 hdf5Compact=rng.random() < 0.4, datasetType2=(P["yamlDataset"] == "forces" and rng.random() < 0.15))
         # ---- build the yaml file and the decoys; every source carries distinguishable values
         v = dict(v0)
         v["calculator"] = P["yamlCalculator"]
-        v["dataset"] = {"absent": None, "disp": "t1-disp", "forces": "t1"}[P["yamlDataset"]]
-        v["fc"] = "full" if P["yamlFc"] else None
+        v["dataset"] = {"absent": None, "disp": "t1-disp", "forces": "t2" if O["datasetType2"] else "t1"}[P["yamlDataset"]]
+        v["fc"] = ("compact" if O["yamlFcCompact"] else "full") if P["yamlFc"] else None
         v["nac"] = None if not P["yamlNac"] else "custom"
         v["nac_factor"] = 3.25
         ph = make_object(rng, rs, v)
         fc0 = gen.pair_fc(ph.supercell, 4.6)
+        from phonopy.harmonic.force_constants import compact_fc_to_full_fc, full_fc_to_compact_fc
+
+        p2s = np.array(ph.primitive.p2s_map, dtype="intc")
+
+        def lay(fcfull, compact):
+            return np.array(full_fc_to_compact_fc(ph.primitive, fcfull), dtype="double", order="C") if compact else fcfull
+        if ph.dataset is not None and "first_atoms" in ph.dataset and P["yamlDataset"] == "forces":
+            # noisy forces: symmetrisation of produced force constants is then visible
+            ds_ = _copy.deepcopy(ph.dataset)
+            for d in ds_["first_atoms"]:
+                d["forces"] = d["forces"] + rs.normal(scale=1e-3, size=d["forces"].shape)
+            ph.dataset = ds_
         units_y = get_default_physical_units(P["argCalculator"] if P["argCalculator"] is not None else P["yamlCalculator"])
         marks = {"yaml": 1.0, "arg": 2.0, "FORCE_CONSTANTS": 3.0, "hdf5": 4.0}
         dmarks = {"yaml": 0.03, "arg": 0.05, "FORCE_SETS": 0.07}
         emarks = {"yaml": None, "arg": 5.0, "born-arg": 6.0, "BORN": 7.0}
-        case = dict(present=P, hdf5_arg=hdf5_arg)
+        case = dict(present=P, options=O, hdf5_arg=hdf5_arg)
         with TmpDir():
             settings = {"force_constants": bool(P["yamlFc"])}
             fn = ph.save("in.yaml", settings=settings)
@@ -562,7 +588,7 @@ def part_priority(run, rng, rs, lines, meta):
                 p.generate_displacements(distance=dist)
                 ds = _copy.deepcopy(p.dataset)
                 for d in ds["first_atoms"]:
-                    d["forces"] = -np.einsum("jab,b->ja", fc0[d["number"]], d["displacement"])
+                    d["forces"] = -np.einsum("jab,b->ja", fc0[d["number"]], d["displacement"]) + rs.normal(scale=1e-3, size=(len(p.supercell), 3))
                 file_IO.write_FORCE_SETS(ds, filename=name)
 
             def born_file(name, eps, with_factor):
@@ -573,7 +599,9 @@ def part_priority(run, rng, rs, lines, meta):
                 with open(name, "w") as w:
                     w.write("\n".join(blines))
 
-            kw = dict(is_nac=P["isNac"], produce_fc=P["produceFc"], is_compact_fc=False, log_level=0)
+            kw = dict(is_nac=P["isNac"], produce_fc=P["produceFc"], is_compact_fc=O["isCompactFc"], symmetrize_fc=O["symmetrizeFc"], log_level=0)
+            if O["fcCalculator"] is not None:
+                kw["fc_calculator"] = O["fcCalculator"]
             if P["argNac"]:
                 nacarg = {"born": np.array([np.eye(3) * 1.5, -np.eye(3) * 1.5]), "dielectric": np.eye(3) * emarks["arg"]}
                 if P["argNacHasFactor"]:
@@ -591,20 +619,34 @@ def part_priority(run, rng, rs, lines, meta):
                 force_sets_file("FORCE_SETS", dmarks["FORCE_SETS"])
             if P["argFcFile"]:
                 if hdf5_arg:
-                    file_IO.write_force_constants_to_hdf5(fc0 * marks["arg"], filename="fc.arg.hdf5")
+                    file_IO.write_force_constants_to_hdf5(lay(fc0 * marks["arg"], O["argFcCompact"]), filename="fc.arg.hdf5", p2s_map=p2s)
                     kw["force_constants_filename"] = "fc.arg.hdf5"
                 else:
-                    file_IO.write_FORCE_CONSTANTS(fc0 * marks["arg"], filename="FC.arg")
+                    file_IO.write_FORCE_CONSTANTS(lay(fc0 * marks["arg"], O["argFcCompact"]), filename="FC.arg", p2s_map=p2s)
                     kw["force_constants_filename"] = "FC.arg"
             if P["fileForceConstants"]:
-                file_IO.write_FORCE_CONSTANTS(fc0 * marks["FORCE_CONSTANTS"], filename="FORCE_CONSTANTS")
+                file_IO.write_FORCE_CONSTANTS(lay(fc0 * marks["FORCE_CONSTANTS"], O["fileFcCompact"]), filename="FORCE_CONSTANTS", p2s_map=p2s)
             if P["fileHdf5"]:
-                file_IO.write_force_constants_to_hdf5(fc0 * marks["hdf5"], filename="force_constants.hdf5")
+                file_IO.write_force_constants_to_hdf5(lay(fc0 * marks["hdf5"], O["hdf5Compact"]), filename="force_constants.hdf5", p2s_map=p2s)
             if P["argCalculator"] is not None:
                 kw["calculator"] = P["argCalculator"]
             if P["argFactor"]:
                 kw["factor"] = 123.5
-            ph2 = phonopy.load(fn, **kw)
+            raised = False
+            try:
+                ph2 = phonopy.load(fn, **kw)
+            except Exception as e:
+                if type(e).__name__ != "ForceCalculatorRequiredError":
+                    raise
+                raised = True
+            opt_req = "%d %d %s %d %d %d %d %d" % (int(O["isCompactFc"]), int(O["symmetrizeFc"]), O["fcCalculator"] or "-", int(O["yamlFcCompact"]),
+                                                   int(O["argFcCompact"]), int(O["fileFcCompact"]), int(O["hdf5Compact"]), int(O["datasetType2"]))
+            if raised:
+                lines.append("recompute " + present_tokens(P) + " " + opt_req)
+                meta.append(("recompute", case, "- 0 0 0 %s 1" % (O["fcCalculator"] or "traditional")))
+                run.case(("priority-raise", present_tokens(P), opt_req), nontrivial=True)
+                run.count("priority cases (load raises ForceCalculatorRequiredError)")
+                continue
 
             # ---- which source won
             got = {}
@@ -634,6 +676,10 @@ def part_priority(run, rng, rs, lines, meta):
             ds = ph2.dataset
             if ds is None:
                 got["dataset"], got["datasetForces"] = "none", "0"
+            elif "first_atoms" not in ds:
+                # type 2: only the yaml file carries one in these cases
+                got["dataset"] = "yaml"
+                got["datasetForces"] = "1" if "forces" in ds else "0"
             else:
                 dist = float(np.linalg.norm(ds["first_atoms"][0]["displacement"]))
                 src = "?"
@@ -655,16 +701,33 @@ def part_priority(run, rng, rs, lines, meta):
                 for kname, mark in marks.items():
                     if abs(ratio - mark) < 1e-6 and maxdiff(fc, fc0 * mark) < 1e-8 * mark * np.abs(fc0).max() + 1e-12:
                         src = kname
-                if src.startswith("?") and abs(ratio - 1.0) < 1e-3:
-                    src = "produced"
-                if src == "yaml" and not P["yamlFc"]:
-                    src = "produced"
+                symd = 0
+                if src.startswith("?") or (src == "yaml" and not P["yamlFc"]):
+                    # produced from the dataset that won: which of the two recipes?
+                    for sym_ in (False, True):
+                        pr = make_object(rng, rs, dict(v0))
+                        pr.dataset = ph2.dataset
+                        pr.produce_force_constants()
+                        if sym_:
+                            pr.symmetrize_force_constants()
+                        if maxdiff(fc, pr.force_constants) < 1e-9:
+                            src, symd = "produced", int(sym_)
+                            if not sym_:
+                                pr.symmetrize_force_constants()
+                                if maxdiff(fc, pr.force_constants) < 1e-9:
+                                    src = "produced (symmetrisation invisible)"
+                            break
                 got["fc"] = src
-        req = " ".join([str(int(P["argNac"])), str(int(P["argNacHasFactor"])), str(int(P["argBornFile"])), str(int(P["argBornFileHasFactor"])),
-                        str(int(P["argForceSets"])), str(int(P["argFcFile"])), CALC[P["argCalculator"]], str(int(P["argFactor"])),
-                        str(int(P["isNac"])), str(int(P["produceFc"])), str(int(P["yamlNac"])), str(int(P["yamlNacHasFactor"])),
-                        P["yamlDataset"], str(int(P["yamlFc"])), CALC[P["yamlCalculator"]], str(int(P["fileForceSets"])),
-                        str(int(P["fileForceConstants"])), str(int(P["fileHdf5"])), str(int(P["fileBorn"])), str(int(P["fileBornHasFactor"]))])
+                layout = "compact" if ph2.force_constants.shape[0] != ph2.force_constants.shape[1] else "full"
+                src_layout = {"yaml": O["yamlFcCompact"], "arg": O["argFcCompact"], "FORCE_CONSTANTS": O["fileFcCompact"], "hdf5": O["hdf5Compact"]}.get(src)
+                conv = 0 if src_layout is None else int(("compact" if src_layout else "full") != layout)
+                got["recompute"] = "%s %d %d %d %s 0" % (layout, conv, int(src == "produced"), symd,
+                                                        (O["fcCalculator"] or "traditional") if src == "produced" else "-")
+            if ph2.force_constants is None:
+                got["recompute"] = "- 0 0 0 - 0"
+            lines.append("recompute " + present_tokens(P) + " " + opt_req)
+            meta.append(("recompute", case, got.pop("recompute")))
+        req = present_tokens(P)
         lines.append("load " + req)
         meta.append(("load", case, got))
         run.case(("priority", req), nontrivial=True)
@@ -860,6 +923,161 @@ def part_born(run, rng, rs, lines, meta):
 
 
 # --------------------------------------------------------------------------
+# part G: the generated format table vs what the writers print
+# --------------------------------------------------------------------------
+
+def part_formats(run, rng, rs, fmts):
+    """every number a file_IO writer prints equals '%.kf' % x with the precision k the table lists for that writer"""
+    from phonopy import file_IO
+
+    def prec(site):
+        ks = sorted({f["prec"] for f in fmts if f["site"] == site})
+        return ks
+
+    ph = make_object(rng, rs, dict(crystal="nacl_prim", smat=[2, 1, 1], dataset=None, fc=None, settings={}, nac=None, calculator=None))
+    ns = len(ph.supercell)
+
+    def check(site, lines, values, k):
+        toks = [t for ln in lines for t in ln.split() if re.fullmatch(r"-?\d+\.\d+", t)]
+        exp = [("%%.%df" % k) % v for v in values]
+        if toks != exp:
+            run.broke("correspondence", "format table: %s does not print its numbers as %%.%df" % (site, k), dict(first=toks[:3], expected=exp[:3]))
+        run.count("format sites checked against real output", section="correspondence")
+
+    D = scaled_values(rs, (1, ns, 3), 0.05)
+    Fv = scaled_values(rs, (1, ns, 3), 30.0)
+    ks = prec("file_IO._get_FORCE_SETS_lines_type2")
+    if ks:
+        check("file_IO._get_FORCE_SETS_lines_type2", file_IO.get_FORCE_SETS_lines({"displacements": D, "forces": Fv}),
+              [v for d, f in zip(D[0], Fv[0]) for v in list(d) + list(f)], ks[0])
+    fc = scaled_values(rs, (2, 2, 3, 3), 12.0)
+    ks = prec("file_IO.get_FORCE_CONSTANTS_lines")
+    if ks:
+        check("file_IO.get_FORCE_CONSTANTS_lines", [ln for ln in file_IO.get_FORCE_CONSTANTS_lines(fc) if "." in ln], list(fc.ravel()), ks[0])
+    ks = prec("file_IO._get_FORCE_SETS_lines_type1")
+    if len(ks) == 2:
+        ds1 = {"natom": ns, "first_atoms": [{"number": 0, "displacement": D[0, 0], "forces": Fv[0]}]}
+        lines = [ln for ln in file_IO.get_FORCE_SETS_lines(ds1) if "." in ln]
+        check("file_IO._get_FORCE_SETS_lines_type1 (displacement)", lines[:1], list(D[0, 0]), max(ks))
+        check("file_IO._get_FORCE_SETS_lines_type1 (forces)", lines[1:], list(Fv[0].ravel()), min(ks))
+
+
+# --------------------------------------------------------------------------
+# part H: the yaml blocks written by Phonopy.save vs the abstract-syntax model
+# --------------------------------------------------------------------------
+
+def _fr(x):
+    return str(Fraction(float(x)))
+
+
+def _L(v):
+    return "[" + ",".join(_fr(x) for x in v) + "]"
+
+
+def _LL(m):
+    return "[" + ",".join(_L(r) for r in m) + "]"
+
+
+def part_yaml(run, rng, rs, lines, meta):
+    """Phonopy.save -> yaml.safe_load: the parsed mapping must be, key by key, the abstract syntax the model's writer
+    produces (dyadic values, so that the decimal text is exact)."""
+    import yaml
+    from phonopy import Phonopy
+    from phonopy.structure.atoms import PhonopyAtoms
+
+    thorough = run.tier == "thorough"
+    lat, sym, pos, _ = gen.PROTOTYPES["nacl_prim"]
+    for rep in range(24 if thorough else 6):
+        ext = rep % 2 == 1
+        mag = [None, "collinear", "noncollinear"][rep % 3]
+        kw = {}
+        symbols = ["Na", "Cl1" if ext else "Cl"]
+        kw["masses"] = [rng.randint(8, 800) / 4.0, rng.randint(8, 800) / 4.0]
+        if mag == "collinear":
+            kw["magnetic_moments"] = [rng.randint(-8, 8) / 4.0, rng.randint(-8, 8) / 4.0]
+        elif mag == "noncollinear":
+            kw["magnetic_moments"] = [[0.0, rng.randint(-4, 4) / 4.0, 1.0], [0.5, 0.0, -1.0]]
+        cell = PhonopyAtoms(cell=np.array(lat, dtype=float), symbols=symbols, scaled_positions=np.array(pos, dtype=float), **kw)
+        ph = Phonopy(cell, supercell_matrix=np.diag([2, 1, 1]), primitive_matrix="P", log_level=0)
+        ns = len(ph.supercell)
+        kind = ["t1", "t1-noforces", "t1-energy", "t2", "t2-energy", "t2-noforces"][rep % 6]
+        m = rng.randint(1, 3)
+        dy = lambda shape: gen.rand_rational_array(rng, shape, den=64, lim=256)
+        if kind.startswith("t1"):
+            ents = []
+            for i in range(m):
+                e = {"number": rng.randrange(ns), "displacement": dy((3,))}
+                if kind != "t1-noforces":
+                    e["forces"] = dy((ns, 3))
+                if kind == "t1-energy":
+                    e["supercell_energy"] = rng.randint(-4096, 4096) / 64.0
+                ents.append(e)
+            ph.dataset = {"natom": ns, "first_atoms": ents}
+            req = "yaml1 %d %d " % (ns, m) + " ".join(
+                entry_text(ns, e) + (" 1 %s" % q(e["supercell_energy"]) if "supercell_energy" in e else " 0") for e in ents)
+        else:
+            dset = {"displacements": dy((m, ns, 3))}
+            if kind != "t2-noforces":
+                dset["forces"] = dy((m, ns, 3))
+            if kind == "t2-energy":
+                dset["supercell_energies"] = np.array([rng.randint(-4096, 4096) / 64.0 for _ in range(m)])
+            ph.dataset = dset
+            req = "yaml2 %d %d %s %s %s" % (ns, m, flat(dset["displacements"]), ("1 " + flat(dset["forces"])) if "forces" in dset else "0",
+                                            ("1 " + flat(dset["supercell_energies"])) if "supercell_energies" in dset else "0")
+        with TmpDir():
+            fn = ph.save("y.yaml")
+            y = yaml.safe_load(open(fn))
+        # ---- the dataset block as abstract syntax
+        if kind.startswith("t1"):
+            items = []
+            for it in y["displacements"]:
+                extra = set(it) - {"atom", "displacement", "forces", "supercell_energy"}
+                if extra:
+                    run.broke("correspondence", "yaml type-1 item has keys the model does not know: %s" % sorted(extra))
+                items.append("atom=%d displacement=%s forces=%s supercell_energy=%s" % (
+                    it["atom"], _L(it["displacement"]), _LL(it["forces"]) if "forces" in it else "-",
+                    _fr(it["supercell_energy"]) if "supercell_energy" in it else "-"))
+            ast_impl = " ; ".join(items)
+            back = " ; ".join(entry_text(ns, e) + (" 1 %s" % q(e["supercell_energy"]) if "supercell_energy" in e else " 0") for e in ph.dataset["first_atoms"])
+        else:
+            d = y["dataset"]
+            extra = set(d) - {"displacements", "forces", "supercell_energies"}
+            if extra:
+                run.broke("correspondence", "yaml type-2 block has keys the model does not know: %s" % sorted(extra))
+            ast_impl = "displacements=[%s] forces=%s supercell_energies=%s" % (
+                ",".join(_LL(s_) for s_ in d["displacements"]),
+                ("[" + ",".join(_LL(s_) for s_ in d["forces"]) + "]") if "forces" in d else "-",
+                _L(d["supercell_energies"]) if "supercell_energies" in d else "-")
+            ds = ph.dataset
+            back = "%s / %s / %s" % (flat(ds["displacements"]), flat(ds["forces"]) if "forces" in ds else "-",
+                                     _L(ds["supercell_energies"]) if "supercell_energies" in ds else "-")
+        lines.append(req)
+        meta.append(("yaml", dict(kind=kind, request=req[:200]), ast_impl + " | " + " ".join(back.split())))
+        # ---- the atoms of the supercell
+        from phonopy.structure.atoms import atom_data
+
+        # send each atom of the supercell to the model
+        sc = ph.supercell
+        for j in range(ns):
+            num = int(sc.numbers[j])
+            formal = atom_data[num][1]
+            mtxt = "0"
+            if sc.magnetic_moments is not None:
+                mv = np.atleast_1d(sc.magnetic_moments[j])
+                mtxt = ("1 %s" % q(mv[0])) if mv.size == 1 else ("3 " + flat(mv))
+            reqp = "ypoint %s %s %s 1 %s %s" % (sc.symbols[j], formal, flat(sc.scaled_positions[j]), q(sc.masses[j]), mtxt)
+            pt = y["supercell"]["points"][j]
+            mm = pt.get("magnetic_moment")
+            impl = "symbol=%s extended_symbol=%s coordinates=%s mass=%s magnetic_moment=%s | %s %s" % (
+                pt["symbol"], pt.get("extended_symbol", "-"), _L(pt["coordinates"]), _fr(pt["mass"]) if "mass" in pt else "-",
+                "-" if mm is None else (_L(mm) if isinstance(mm, list) else _fr(mm)), sc.symbols[j], formal)
+            lines.append(reqp)
+            meta.append(("yaml", dict(kind="point", request=reqp), impl))
+        run.case(("yaml", kind, ext, mag, req[:300]), nontrivial=True)
+        run.count("yaml abstract syntax: %s" % kind)
+
+
+# --------------------------------------------------------------------------
 # main
 # --------------------------------------------------------------------------
 
@@ -871,7 +1089,19 @@ def main(run):
     rs = np.random.RandomState(run.seed + 1234)
     common.setup_phonopy("omp")
     thorough = run.tier == "thorough"
+    # T-formats: regenerate Gen/Formats.lean from the writers' sources (the theorems formats_* are about this table)
+    import subprocess
+    import sys
+
+    env = dict(os.environ, VERIF_REPO=common.REPO)
+    r = subprocess.run([sys.executable, os.path.join(common.VERIF, "tools", "formats2lean.py")], capture_output=True, text=True, env=env, timeout=120)
+    if r.returncode != 0:
+        run.broke("proof", "tools/formats2lean.py failed", r.stderr[-1500:])
+    fmts = json.loads(subprocess.run([sys.executable, os.path.join(common.VERIF, "tools", "formats2lean.py"), "--json"],
+                                     capture_output=True, text=True, env=env, timeout=120).stdout or "[]")
+    run.cov["formats_table"] = dict(entries=len(fmts), adjacent=[f["site"] for f in fmts if f["adjacent"]])
     run.proof_step(leancheck=thorough)
+    part_formats(run, rng, rs, fmts)
     run.cov["rule"] = (
         "(A) file_IO writers/parsers on values of magnitude 1e-12 .. 1e8 (FORCE_SETS type 1 and 2, FORCE_CONSTANTS full/compact, "
         "hdf5 with compression filters, BORN); (B) Phonopy.save -> phonopy.load over {no dataset, type-1, type-2} x {displacements only, "
@@ -904,6 +1134,7 @@ def main(run):
     part_priority(run, rng, rs, lines, meta)
     t4 = time.time()
     part_born(run, rng, rs, lines, meta)
+    part_yaml(run, rng, rs, lines, meta)
     run.cov["wall_born_s"] = round(time.time() - t4, 1)
     run.cov["wall_parts_s"] = dict(precision_dataset=round(t1 - t0, 1), fileio=round(t2 - t1, 1), saveload=round(t3 - t2, 1), priority=round(t4 - t3, 1))
 
@@ -965,6 +1196,12 @@ def main(run):
             mobj = " ".join(ans.split()[:5])
             if mobj != impl:
                 broke("after save/load the object is %s, model reload = %s" % (impl, ans), info)
+        elif kind == "yaml":
+            if " ".join(ans.split()) != " ".join(str(impl).split()):
+                broke("yaml block written by Phonopy.save differs from the abstract-syntax model", dict(info, implementation=str(impl)[:400], model=ans[:400]))
+        elif kind == "recompute":
+            if ans != impl and "invisible" not in str(impl):
+                broke("what phonopy.load recomputed (layout converted produced symmetrised solver raises) = %s, model recompute = %s" % (impl, ans), info)
         elif kind == "load":
             cal, fac, nac, nacf, dsrc, dsf, fc, doc = ans.split()
             model = dict(calculator=cal, factor=fac, nac=nac, nacFactor=nacf, dataset=dsrc, datasetForces=dsf, fc=fc)
